@@ -1,6 +1,6 @@
 (** Non-vacuity for C11. *)
 From Coq Require Import NArith List Lia.
-From FF Require Import Lib.Word Gen.Consts_device_acpi_aml Aml.Stream Aml.Lex Aml.LexProofs Aml.Grammar Aml.LexRoundtrip.
+From FF Require Import Lib.Word Gen.Consts_device_acpi_aml Aml.Stream Aml.Lex Aml.LexProofs Aml.Grammar Aml.LexRoundtrip Aml.WfProgram Aml.C11Witness.
 Import ListNotations.
 Local Open Scope N_scope.
 
@@ -41,3 +41,8 @@ Proof.
   - split; [vm_compute; discriminate|]. eexists. split; [reflexivity|discriminate].
   - split; [vm_compute; discriminate|]. eexists. split; [reflexivity|discriminate].
 Qed.
+
+(** the statement of C11 holds on a program with scopes, a device, a forward call with an operator argument, a region
+    with fields, a package and a buffer *)
+Example C11_parse_encode_example : wf_program good_program = true /\ parse_encode_statement good_program.
+Proof. exact good_program_ok. Qed.
